@@ -176,8 +176,6 @@ def multiset_le(a, b):
 
 def domain(case):
     """Which excluded domain (known-finding domain) a case lies in, if any."""
-    if case.get('pre_closed') and len(case['pre_closed']) == case['nw']:
-        return 'no-live-worker-at-start'
     if case.get('refs'):
         return 'refusing-enqueue_fn'
     return None
